@@ -125,14 +125,18 @@ fn unpack_case(l: usize, count: u8) {
 			assert!(ch.len() == count as usize && ch2.len() == count as usize, "C10.N1 child count is the trailing byte");
 			assert!(d.len() + ch.len() * 8 + 1 == l, "C10.N1 data ++ children ++ count is the whole input");
 			assert!(packed_node_size(&d, count) == l, "C10.N1 packed_node_size inverts");
-			let i: usize = kani::any();
-			kani::assume(i < d.len());
-			assert!(d[i] == buf[i], "C10.N1 data bytes are the prefix");
-			let j: usize = kani::any();
-			kani::assume(j < ch.len());
-			let o = d.len() + j * 8;
-			let want = u64::from_le_bytes([buf[o], buf[o + 1], buf[o + 2], buf[o + 3], buf[o + 4], buf[o + 5], buf[o + 6], buf[o + 7]]);
-			assert!(ch[j] == want && ch2[j] == want, "C10.N1 children are the little-endian addresses in order");
+			if d.len() > 0 {
+				let i: usize = kani::any();
+				kani::assume(i < d.len());
+				assert!(d[i] == buf[i], "C10.N1 data bytes are the prefix");
+			}
+			if ch.len() > 0 {
+				let j: usize = kani::any();
+				kani::assume(j < ch.len());
+				let o = d.len() + j * 8;
+				let want = u64::from_le_bytes([buf[o], buf[o + 1], buf[o + 2], buf[o + 3], buf[o + 4], buf[o + 5], buf[o + 6], buf[o + 7]]);
+				assert!(ch[j] == want && ch2[j] == want, "C10.N1 children are the little-endian addresses in order");
+			}
 			std::mem::forget(d); std::mem::forget(ch); std::mem::forget(ch2);
 		},
 		(Err(_), Err(_)) => { assert!(!fits, "C10.N1 a well-formed node is never rejected"); },
